@@ -1,9 +1,21 @@
 (* Properties_C04.v — property C04: growth, pressure, division trigger and removal follow the cell-cycle law.
    Only statements; every proof is `exact <lemma of CellCycleProofs.v>`.  Model: CellCycle.v at R with ln/exp. *)
 From Coq Require Import Reals Lra Bool ZArith List.
-From SC Require Import Num CellCycle CellCycleProofs.
+From SC Require Import Num CellCycle CellCycle_gen CellCycleProofs.
 Import ListNotations.
 Local Open Scope R_scope.
+
+(* 0. THE MODEL IS THE SOURCE.  CellCycle_gen.v is regenerated on every run from cell::update_target_volume, the pressure
+   assignments of cell::update_pressure, cell::is_below_min_vol and epithelial_cell::is_ready_to_divide
+   (harness/translate_cellcycle.py: member assignments read as a chain of lets).  The hand-written functions of CellCycle.v,
+   about which everything below is stated, are those functions, for every number type. *)
+Theorem cellcycle_model_is_what_the_source_says : (cellcycle_translation_ok = true :> bool) /\
+  (forall (T : Type) (N : Num T) (dt g minvol vt : T), update_target_volume_gen N dt g minvol vt = update_target_volume N dt g minvol vt) /\
+  (forall (T : Type) (N : Num T) (L : Libm T) (K pmax V vt : T), update_pressure_gen N L K pmax V vt = update_pressure N L K pmax V vt) /\
+  (forall (T : Type) (N : Num T) (V minvol : T), is_below_gen N V minvol = is_below N V minvol) /\
+  (forall (T : Type) (N : Num T) (V vdiv : T), epithelial_is_ready_gen N V vdiv = is_ready N 0%Z V vdiv).
+Proof. repeat split; intros; reflexivity. Qed.
+Print Assumptions cellcycle_model_is_what_the_source_says.
 
 (* the target volume increases by growth_rate*dt per iteration and never drops below the type's minimum volume *)
 Theorem target_volume_step : forall dt g minvol vt,
